@@ -99,6 +99,8 @@ def worker(cfg):
         out["violations"].append(C.violation(key, what, r, replay))
 
     def body(ctx):
+        if cfg.get("rotations"):
+            ctx.state["rng_rotations"] = True         # long region: each permutation draw is the identity or a rotation by one (solver-chosen)
         seed = core.SNpInt(z3.Int("seed")) if cfg.get("seed_kind") == "numpy" else core.Int("seed")
         ctx.assume(seed >= 0)
         if fn == "shuffle":
@@ -246,6 +248,10 @@ def configs(tier):
         cf.append(dict(fn="dinucleotide", A=3, x=[x], start=s, end=e, n=1))
     cf.append(dict(fn="dinucleotide", A=2, x=[[0, 1, 0, 0, 1], [1, 1, 0, 1, 0]], start=0, end=5, n=1))
     cf.append(dict(fn="dinucleotide", A=3, x=[[0, 1, 2, 0, 1]], start=0, end=5, n=2))
+    # a region longer than 128 / 256 positions: position bookkeeping in fixed-width integer arrays must not wrap
+    # (all permutation outcomes are out of reach at this length: each draw is the identity or a rotation by one, chosen by the solver)
+    long_x = [(i * i + i // 3) % 3 for i in range(140 if q else 270)]
+    cf.append(dict(fn="dinucleotide", A=3, x=[long_x], start=0, end=len(long_x), n=1, rotations=True))
     return cf
 
 
@@ -256,7 +262,8 @@ def main(tier, seed):
     cf = configs(tier)
     rep.bounds = {"shuffle": "symbolic characters and region, %s" % sorted({(c["A"], c["B"], c["L"], c["n"]) for c in cf if c["fn"] == "shuffle"}),
                   "dinucleotide": "every sequence up to alphabet renaming for (A, L) in %s; all permutation outcomes of the walk symbolic" % sorted({(c["A"], len(c["x"][0])) for c in cf if c["fn"] == "dinucleotide"}),
-                  "sequences": sum(1 for c in cf if c["fn"] == "dinucleotide")}
+                  "sequences": sum(1 for c in cf if c["fn"] == "dinucleotide"),
+                  "long region": "one sequence of %d positions (A=3) with each permutation draw restricted to identity / rotation by one: position bookkeeping in fixed-width integer arrays" % max(len(c["x"][0]) for c in cf if c.get("rotations"))}
     rep.assumptions = ["RNG model: RandomState.shuffle / numpy.random.permutation return an arbitrary permutation, a function of (seed, call index) only; bit-level streams outside the claim",
                        "numba semantics: numpy.random.permutation(-1) is empty; _fast_shuffle interpreted from its Python source",
                        "determinism is checked as seed routing (which seed reaches which draw), not as literal outputs",
